@@ -14,7 +14,7 @@ META = dict(
     explanation='Differential, real code on both sides: for a pipeline P of dual-mode operators and N symbolic (group, value) pairs, the per-group outputs of with_memory_store([group_by(key, P)]) (bucketed by a tap at the tail of the inner pipeline) '
                 'must equal, items and order, what rx.from_(values of that group).pipe(*P) emits on a plain observable. The group of each item is a solver variable (concretised by a comparison cascade), so every interleaving of <= G groups is a path. '
                 'A second form compares with_memory_store(P) on the root key with the plain run; a third spreads the pipeline over two chained with_memory_store stages; a fourth takes the keys from split / roll (successive lifetimes on one re-used key slot) and compares every lifetime with the plain run on its items. Programs: every dual-mode catalogue operator alone, seeded type-correct compositions to depth 3, tee_map with the three joins over depth-1/2 branches. '
-                'Float-valued operators (sum, mean, variance, stddev, formal.*) are run with z3 Real terms as items at native speed (z3x family): mux and plain output terms must be identical or provably equal.',
+                'Float-valued operators (sum, mean, variance, stddev, formal.*) are run with z3 Real terms as items at native speed (z3x family): mux and plain output terms must be identical or provably equal - over the reals and, for the accumulating ones, over IEEE binary64 terms (bit-for-bit the same operation sequence per group, whatever the other groups did in between).',
     bounds=dict(quick='N <= 3 items, G <= 2 groups, |v| <= 2^40; ~37 single operators, 30 seeded depth-2, 12 seeded depth-3, 9 tee_map programs; z3x: N <= 5, G <= 3',
                 thorough='N <= 4, G <= 3 (N <= 5 for branch-free pipelines); 300 seeded programs; z3x: N <= 7, G <= 3'),
     outside='pipelines not enumerated; N, G above the bound; int64 overflow of typed state; the preconditions of the statement are assumed: first/last/reduce on an empty sequence (plain RxPY raises) is skipped, '
@@ -213,7 +213,8 @@ class Floats(object):
         from vp import z3x
         prog, n, g = self.p['prog'], self.p['n'], self.p['g']
         q = z3x.Queries(cross_check=self.p.get('cross', False))
-        xs = [z3.Real('x%d' % i) for i in range(n)]
+        fp = self.p.get('fp', False)
+        xs = [z3.FP('x%d' % i, z3.Float64()) for i in range(n)] if fp else [z3.Real('x%d' % i) for i in range(n)]
         shapes = 0
         bad, unknown = [], []
         for keys in itertools.product(range(g), repeat=n):
@@ -240,7 +241,17 @@ class Floats(object):
                         if r in ('same', 'unsat'):
                             continue
                         if r == 'sat':
-                            bad.append(dict(prog=prog, keys=keys, group=k, output=j, replay=dict(prog=prog, keys=list(keys))))
+                            vals = None
+                            if fp and m is not None:
+                                vals = []
+                                for x in xs:
+                                    rv = z3.simplify(m.eval(z3.fpToReal(x), model_completion=True))
+                                    try:
+                                        vals.append(float(rv.numerator_as_long()) / float(rv.denominator_as_long()))
+                                    except Exception:
+                                        vals = None
+                                        break
+                            bad.append(dict(prog=prog, keys=keys, group=k, output=j, replay=dict(prog=prog, keys=list(keys), vals=vals)))
                         else:
                             unknown.append('%s on %s %s' % (r, prog, keys))
         out = dict(paths=shapes, solver_queries=q.n, solver_s=round(q.solver_s, 3), queries=q.log[:20], encoded=['float-valued rxsci.math operators executed on z3 Real terms through the real group_by / scan / map / tee_map'])
@@ -263,7 +274,7 @@ class Floats(object):
     def replay(self, args):
         a = args[0]
         keys = a['keys']
-        vals = [1.5, -2.0, 4.25, 10.0, 0.5, 7.0, -3.5, 2.0][:len(keys)]
+        vals = (a.get('vals') or [1.5, -2.0, 4.25, 10.0, 0.5, 7.0, -3.5, 2.0])[:len(keys)]
         import math
         out = []
         log, err = [], []
@@ -372,5 +383,8 @@ def obligations(tier, seed):
             g = 3
             obs.append(Ob(PROP, 'floats', dict(prog=prog, n=n, g=g, cross=not q), kind='direct', budget=200 if q else 900, group='floats(z3x)',
                           bound=dict(items=n, groups=g, values='any real', pipeline=prog)))
+    for prog in ('sum', 'sum_r', 'mean', 'var', 'sum>var', 'tee(sum,var_r)'):
+        obs.append(Ob(PROP, 'floats', dict(prog=prog, n=4, g=2, fp=True), kind='direct', budget=200 if q else 900, group='floats(z3x, IEEE binary64 terms)',
+                      bound=dict(items=4, groups=2, values='any binary64', pipeline=prog)))
     obs.append(Ob(PROP, 'grouped', dict(desc=[['filter_even'], ['scan_add']], n=3, g=2, _twin='reach'), budget=60, expect='refute'))
     return obs
